@@ -571,7 +571,8 @@ def compileStep (src : Str) (opts : TemplateOptions) (fuel : Nat) (st : CState) 
             match stk with
             | [] => CRes.panic "tpl.decorator_end.tpop"
             | prevT :: stk' => do
-              let d := { d with template := some prevT }
+              -- the body is rendered from other templates: it remembers where it was written
+              let d := { d with template := some (prevT.setName opts.name) }
               let el := if rule == some .r_decorator_block_end then Elem.decoBlock d else Elem.partialBlock d
               let stk'' ← frontMut "tpl.decorator_end.front" stk' (·.pushElemOnly el)
               pure ({ st with tmplStack := stk'', decoStack := ds, trimLine := trim }, it)
